@@ -5,12 +5,13 @@
      field   ::= ws item ("," ws item)*                 an item may be empty: empty entries and a
                                                         trailing comma are allowed
      item    ::= rel ("|" ws rel)*  |  "${" seg (":" seg)* "}" ws  |  (nothing)
-     rel     ::= name [ws ":" ws name] [ws "(" ws op ws [epoch ":"] version ws ")"]
+     rel     ::= name [ws ":" ws name] [ws "(" ws op ws [epoch ":" (piece ":")*] version ws ")"]
                  [ws "[" term+ ws "]"] (ws "<" term+ ws ">")* ws
      term    ::= ws ["!"] name                          (ws non-empty except before the first term)
      op      ::= ">=" | "<=" | "=" | ">>" | "<<"
      ws      ::= (SP | TAB | LF)*
-     name, version, seg ::= [A-Za-z0-9.+~-]+            epoch ::= canonical decimal <= u32::MAX
+     name, version, piece, seg ::= [A-Za-z0-9.+~-]+     epoch ::= canonical decimal <= u32::MAX
+   (Policy 5.6.12: the upstream part of a version may contain colons only when there is an epoch.)
 
    The whitespace slots are those where the lossless reader skips whitespace; Policy itself only
    shows  name:qual  without spaces, which is the special case of two empty slots. *)
@@ -28,7 +29,8 @@ Record vclause := mk_vclause {
   v_op : vop;
   v_ws2 : str;             (* between operator and version *)
   v_epoch : option str;
-  v_ver : str;
+  v_ver : str;             (* the version, up to its first further colon *)
+  v_more : list str;       (* the ":"-separated pieces after it (only with an epoch) *)
   v_ws3 : str              (* before ")" *)
 }.
 Record qual := mk_qual { q_ws0 : str; q_ws1 : str; q_name : str }.   (* ws ":" ws name *)
@@ -56,7 +58,7 @@ Definition group_text (o c : N) (g : group) : str := g_ws0 g ++ group_body_text 
 Definition arch_text := group_text 91%N 93%N.          (* [ ] *)
 Definition prof_text := group_text 60%N 62%N.          (* < > *)
 Definition vtext (v : vclause) : str :=
-  match v_epoch v with Some e => e ++ [58%N] | None => [] end ++ v_ver v.
+  match v_epoch v with Some e => e ++ [58%N] | None => [] end ++ v_ver v ++ flat_map (fun p => 58%N :: p) (v_more v).
 Definition vbody_text (v : vclause) : str :=
   40%N :: v_ws1 v ++ vop_text (v_op v) ++ v_ws2 v ++ vtext v ++ v_ws3 v ++ [41%N].
 Definition vclause_text (v : vclause) : str := v_ws0 v ++ vbody_text v.
@@ -82,6 +84,7 @@ Definition rrender (f : rfield) : str := f_lead f ++ items_text (f_first f) (f_r
 Definition is_fws (c : char) : bool := ((c =? 32) || (c =? 9) || (c =? 10))%N.
 Definition ws_ok (s : str) : bool := forallb is_fws s.
 Definition nonempty {A} (l : list A) : bool := match l with [] => false | _ => true end.
+Definition is_nil {A} (l : list A) : bool := match l with [] => true | _ => false end.
 Definition ident_ok (s : str) : bool := nonempty s && forallb is_ident_char s.
 (* canonical decimal (what u32's Display prints), within u32 *)
 Definition epoch_ok (e : str) : bool :=
@@ -96,7 +99,8 @@ Definition terms_ok (l : list term) : bool :=
 Definition group_ok (g : group) : bool := ws_ok (g_ws0 g) && terms_ok (g_terms g) && ws_ok (g_ws1 g).
 Definition vclause_ok (v : vclause) : bool :=
   ws_ok (v_ws0 v) && ws_ok (v_ws1 v) && ws_ok (v_ws2 v) && ws_ok (v_ws3 v)
-  && opt_ok epoch_ok (v_epoch v) && ident_ok (v_ver v).
+  && opt_ok epoch_ok (v_epoch v) && ident_ok (v_ver v)
+  && forallb ident_ok (v_more v) && match v_epoch v with None => is_nil (v_more v) | Some _ => true end.
 Definition qual_ok (q : qual) : bool := ws_ok (q_ws0 q) && ws_ok (q_ws1 q) && ident_ok (q_name q).
 Definition wf_rel (r : rel) : bool :=
   ident_ok (r_name r) && opt_ok qual_ok (r_qual r) && opt_ok vclause_ok (r_ver r)
@@ -139,7 +143,8 @@ Definition vop_toks (o : vop) : list rtoken :=
   | VEq => [(EQUAL, [61])] | VGt => [(R_ANGLE, [62]); (R_ANGLE, [62])] | VLt => [(L_ANGLE, [60]); (L_ANGLE, [60])]
   end%N.
 Definition vtext_toks (v : vclause) : list rtoken :=
-  match v_epoch v with Some e => [(IDENT, e); (COLON, [58%N])] | None => [] end ++ [(IDENT, v_ver v)].
+  match v_epoch v with Some e => [(IDENT, e); (COLON, [58%N])] | None => [] end ++ (IDENT, v_ver v)
+  :: flat_map (fun p => [(COLON, [58%N]); (IDENT, p)]) (v_more v).
 Definition vbody_toks (v : vclause) : list rtoken :=
   (L_PARENS, [40%N]) :: ws_toks (v_ws1 v) ++ vop_toks (v_op v) ++ ws_toks (v_ws2 v) ++ vtext_toks v
   ++ ws_toks (v_ws3 v) ++ [(R_PARENS, [41%N])].
@@ -225,7 +230,6 @@ Definition item_elems (i : item) (last : bool) : list rtree :=
   | ISubst seg segs trail => subst_node seg segs :: ws_elems trail
   | IEmpty => []
   end.
-Definition is_nil {A} (l : list A) : bool := match l with [] => true | _ => false end.
 Fixpoint items_elems (i : item) (more : list (str * item)) : list rtree :=
   item_elems i (is_nil more)
   ++ match more with [] => [] | (w, i') :: more' => Tok COMMA [44%N] :: ws_elems w ++ items_elems i' more' end.
@@ -253,17 +257,25 @@ Definition f_items (f : rfield) : list item := f_first f :: map snd (f_rest f).
 Definition rcontent (f : rfield) : list (list relx) * list str :=
   (flat_map item_entries (f_items f), flat_map item_substvars (f_items f)).
 
-(* the accessors' result type has no room for the negation of an architecture *)
-Definition relx_drop_neg (x : relx) : relc :=
-  mk_relc (x_name x) (x_qual x) (x_ver x) (option_map (map snd) (x_archs x)) (x_profs x).
+(* The accessors return architectures as Strings, a negated one with "!" in front
+   (Relation::architectures since /repo 541b0f5): [relx_acc] is the content in the accessors' own
+   type, [relc_view] reads an accessor result back as content. *)
+Definition arch_acc_text (a : bool * str) : str := neg_text (fst a) ++ snd a.
+Definition arch_of_text (s : str) : bool * str :=
+  match s with
+  | c :: r => if (c =? 33)%N then (true, r) else (false, s)
+  | [] => (false, [])
+  end.
+Definition relx_acc (x : relx) : relc :=
+  mk_relc (x_name x) (x_qual x) (x_ver x) (option_map (map arch_acc_text) (x_archs x)) (x_profs x).
 Definition relc_view (c : relc) : relx :=
-  mk_relx (c_name c) (c_qual c) (c_ver c) (option_map (map (fun s => (false, s))) (c_archs c)) (c_profs c).
-Definition rcontent_drop_neg (f : rfield) : list (list relc) * list str :=
-  (map (map relx_drop_neg) (fst (rcontent f)), snd (rcontent f)).
+  mk_relx (c_name c) (c_qual c) (c_ver c) (option_map (map arch_of_text) (c_archs c)) (c_profs c).
+Definition rcontent_acc (f : rfield) : list (list relc) * list str :=
+  (map (map relx_acc) (fst (rcontent f)), snd (rcontent f)).
 Definition racc_view (a : list (list relc) * list str) : list (list relx) * list str :=
   (map (map relc_view) (fst a), snd a).
 
-(* finding class arch-negation-dropped: the field contains a negated architecture *)
+(* fields with a negated architecture (the former finding class arch-negation-dropped) *)
 Definition rel_neg_arch (r : rel) : bool :=
   match r_archs r with Some g => existsb t_neg (g_terms g) | None => false end.
 Definition item_neg_arch (i : item) : bool :=
